@@ -9,6 +9,9 @@ CHECKS = {
  "C04": dict(cat="model_checking", ref="§3 C04",
    text="Explicit-state exploration of the real Send/Receive code: every interleaving of sends and deliveries of two parties over two FIFO queues up to a per-side send budget, with fragmentation and side traffic (heartbeat via clock tick, extra-key request, one SMP run), under OTRv2 and OTRv3; in every state the delivered list must be a prefix of the peer's sent list and equal at quiescence.",
    tech="explicit-state model checking of the implementation (clone-on-branch DFS, exact state hashing)"),
+ "C07": dict(cat="model_checking", ref="§3 C07",
+   text="Complete search of the AKE state graph on a reliable FIFO network: for every policy/version pair sharing a version, every start state (plaintext, encrypted refresh, one side finished), every trigger kind (query, whitespace tag, error restart, Send under required encryption) and every initiator pattern (A, B, one first and the other at any later moment incl. simultaneously), all interleavings of deliveries are executed on the real conversations until quiescence; at quiescence both must be encrypted in one common (new) session and a probe text must be readable both ways.",
+   tech="explicit-state model checking of the implementation (all delivery interleavings to quiescence)"),
 }
 NA_REASON = "check not built yet (work in progress; see DESIGN.md §3 for the planned bounded exploration)"
 def main():
